@@ -9,8 +9,9 @@ correspondence: real src/common/hostlist.c (assertions + ASan/UBSan, linked into
                 hl_print_ops.h) vs `pdshmodel print model <variant>` on the same record lists: for EVERY buffer size
                 n = 1 .. text length + 2, return value, position of the NUL, buffer contents, the guard bytes that
                 changed on either side of the buffer, and the sizes at which an exact-size heap allocation makes
-                ASan report; the scratch-built pdsh binary (-q / -Q with texts ending within +-2 of the 1024-byte
-                buffer, -w -^file around the 4095-byte exclusion buffer) vs the model of the two fixed callers
+                ASan report; the scratch-built pdsh binary (-q / -Q with texts ending within +-2 of 1024 bytes and of the
+                display capacity MEASURED on that binary, -w -^file around the 4095-byte exclusion buffer) vs the
+                model of the two callers run with the measured capacity (the caller's buffer policy is an input)
 oracle:         the property text on observables only (vlib/printcheck.py judge_sweep): no guard byte changes, a NUL
                 inside n bytes, fits <=> length returned and the full text left, does not fit <=> -1 and a prefix
                 left; the full text is parsed back by the real hostlist_create (in process, and again through the
@@ -39,7 +40,8 @@ MANIFEST = dict(
          "PrintSpec.lean); the model is executed against the real hostlist_ranged_string / hostlist_deranged_string "
          "(harness/hl_harness.c + hl_print_ops.h) on generated lists for every n from 1 to text length + 2 and against "
          "`pdsh -q/-Q -w` and `pdsh -w -^file` of a scratch build AND of an AddressSanitizer build of the same tree near the "
-         "1024 / 4095 / 8191-byte boundaries, and hostlist_shift_range / hostlist_pop_range until NULL (fixed stack buffers "
+         "1024-byte / measured-display-capacity / 4095 / 8191-byte boundaries (opt_list's buffer policy is measured on the binary "
+         "and handed to the model, never read from the source), and hostlist_shift_range / hostlist_pop_range until NULL (fixed stack buffers "
          "inside hostlist.c) against the model; the real code is also judged by the property "
          "text restated on observables, which yields the failing (list, n) as replay. The form of the truncation test "
          "of hostlist_deranged_string (D14) and of list_push_hostlist's retry condition (D2/F14-XLOOP) is probed on every "
@@ -128,6 +130,13 @@ def run(ctx):
                         continue
                     cases.append({"origin": "wide", "ops": ["pmk " + " ".join(r.field() for r in recs)],
                                   "desc": " ".join(r.field() for r in recs)})
+            # MANY entries in ONE bracket (64, 65, 100, 1100 one-host ranges of one prefix): the compressed text is a single
+            # long bracket list, read back by hostlist_create (pback) - the parser's per-bracket bookkeeping at and past
+            # every power of two
+            for k in (64, 65, 100, 1100):
+                recs = [Rec(b"b", 2 * i + 1, 2 * i + 1, 1, False) for i in range(k)]
+                cases.append({"origin": "long-bracket", "ops": ["pmk " + " ".join(r.field() for r in recs)],
+                              "desc": "b[1,3,5,..] with %d entries" % k})
             cases.extend(small_scope(2 if ctx.quick() else 3))
             if not ctx.quick():
                 from vlib.printcheck import SHAPES
@@ -167,7 +176,8 @@ def run(ctx):
                       "hand-written model lean/PdshVerif/Hostlist/Print.lean tied to hostlist.c (hostrange_to_string, "
                       "hostrange_numstr, _get_bracketed_list, _is_bracket_needed, hostlist_ranged_string, "
                       "hostlist_deranged_string) and opt.c (opt_list, list_push_hostlist) by differential execution",
-                      "the literal sizes 1024 / 4096 of opt.c are re-read from the source on every run",
+                      "opt_list's display capacity is MEASURED on the pdsh binary of every run (no source literal is read); "
+                      "list_push_hostlist's first block size matters to the unrepaired retry condition only",
                       "harness/hl_harness.c + hl_print_ops.h, vlib/printcheck.py (generators, oracle), gcc, ASan/UBSan"],
         checker_cmd="lake build PdshVerif.Props.C14 && #print axioms on every theorem of Props/C14.lean")
 
@@ -395,26 +405,37 @@ def crash_class(txt):
 
 # --------------------------------------------------------------------------------------------------------------
 def cli_check(ctx, pr, gen, dist, cov, only=None, builds=None):
-    """the two fixed callers in the pdsh binary: opt_list's wcoll_str[1024] (-q ranged, -Q deranged) and
-    list_push_hostlist's 4096-byte exclusion text (-w -^file)"""
+    """the two callers in the pdsh binary: opt_list (-q ranged, -Q deranged) and list_push_hostlist's exclusion text
+    (-w -^file).  HOW BIG opt_list's display buffer is, and whether it grows, is the caller's policy: the display capacity is
+    measured on the binary (first truncation of `pdsh -Q` on lists of 1100, 2200, .. bytes) and handed to the model; the
+    oracle accepts the whole text or a proper prefix marked [truncated], nothing else."""
     cli = PrintCli(ctx, builds)
     if not cli.pdsh:
         return
     rng = ctx.rng
+    cap, problems = cli.display_capacity()
+    for pb in problems:
+        ctx.offender("cli-garbled", pb, {"origin": "cli", "desc": "display capacity probe"})
+    dist["display-capacity"] = cap if cap is not None else "unbounded below 4 MiB"
+    cov.setdefault("variant_detected", {})["opt_list display capacity (observed caller policy)"] = dist["display-capacity"]
+    ctx.log("opt_list shows target lists through a display capacity of %s bytes (observed); the model runs with it" %
+            (cap if cap is not None else ">= 4 Mi"))
+    mcap = cap if cap is not None else 1 << 40
+    bases = sorted(set([1024] + ([cap] if cap is not None and cap <= 65536 else [])))
     jobs = []
     if only is not None:
         jobs.append((only["flag"], unhx(only["expr_hex"])))
     else:
         for flag in ("-q", "-Q"):
+          for base in bases:                      # the historical 1024 and the observed capacity
             for d in (-2, -1, 0, 1, 2):
                 for more in (0, 3):
-                    # names of 7 bytes + comma: text of exactly 1023 + d bytes, then `more` further hosts
-                    c = gen.boundary(size=1024)
-                    names = c["expr"].split(b",")
-                    names = [x for x in names if not x.startswith(b"more")]
+                    # names of 7 bytes + comma: text of exactly base - 1 + d bytes, then `more` further hosts
+                    names = []
+                    while sum(len(x) + 1 for x in names) < base + 16:
+                        names.append(bytes(rng.choice(b"abcdefghijklmnopqrstuvwxy") for _ in range(7)))
                     s = b",".join(names)
-                    # adjust to the wanted length
-                    want = 1023 + d
+                    want = base - 1 + d
                     while len(s) > want:
                         s = s[:-1]
                     while len(s) < want:
@@ -424,6 +445,21 @@ def cli_check(ctx, pr, gen, dist, cov, only=None, builds=None):
                     if more:
                         s += b"," + b",".join(b"m%dx" % j for j in range(more))
                     jobs.append((flag, s))
+        if cap is not None and cap > 65536:
+            # a big display buffer: its boundary through numeric ranges (expanded form; the argument stays short).  The
+            # Lean model needs time quadratic in the text: these cases are judged by the oracle and the ASan build only
+            from vlib.printcheck import numeric_list
+            for d in (-1, 0, 1):
+                big_boundary(ctx, cli, cap, d, dist)
+        for flag in ("-q", "-Q"):                   # lists a 1024-byte buffer cuts and a bigger one shows in full
+            for want in (2047, 4096):
+                names = []
+                while sum(len(x) + 1 for x in names) < want + 16:
+                    names.append(bytes(rng.choice(b"abcdefghijklmnopqrstuvwxy") for _ in range(7)))
+                s = b",".join(names)[:want]
+                if s.endswith(b","):
+                    s = s[:-1] + b"z"
+                jobs.append((flag, s))
         z = b"0" * 1030
         for flag in ("-q", "-Q"):          # the lower bound alone (1031 digits) is longer than wcoll_str[1024]
             jobs.append((flag, b"n[" + z + b"1-" + z + b"2]"))
@@ -445,6 +481,11 @@ def cli_check(ctx, pr, gen, dist, cov, only=None, builds=None):
             continue
         recs = parse_dump(ans[1])[1]
         if sum(r.count() for r in recs) > 3000:
+            if not meta_name(recs) and not meta_prefix(recs) and all(r.single or r.hi < (1 << 25) for r in recs):
+                # big numeric lists (the boundary of a big display buffer): wcoll_expand's shift-and-push-again rebuilds
+                # the same records
+                seqs2.append(["create " + hx(s), "dump"])
+                keep.append((flag, s))
             continue
         seqs2.append(["new"] + ["push " + hx(h) for h in all_hosts(recs)] + ["dump"])
         keep.append((flag, s))
@@ -456,23 +497,31 @@ def cli_check(ctx, pr, gen, dist, cov, only=None, builds=None):
         recs = parse_dump(ans[1])[1]
         if meta_name(recs) or meta_prefix(recs):
             continue                      # names with brackets left after two expansions: outside plain target words
-        m = ctx.model("print", "list %s\npcli %s\nptext %s\n" % (ans[1], flag[1], "d" if flag == "-Q" else "r"),
-                      args=pr.margs())
+        # the capacity matters only when the text does not fit (C14.optListN_whole_when_fits): the model runs with the
+        # observed capacity when it cuts this text, else with the smallest buffer that holds it
+        m0 = ctx.model("print", "list %s\nptext %s\n" % (ans[1], "d" if flag == "-Q" else "r"), args=pr.margs(), timeout=600)
+        flen = len(unhx(m0[1].split()[1]))
+        mcap = cap if cap is not None and flen >= cap else flen + 2
+        if mcap > 70000:
+            continue
+        m = ctx.model("print", "list %s\npcli %s %d\nptext %s\n" % (ans[1], flag[1], mcap, "d" if flag == "-Q" else "r"),
+                      args=pr.margs(), timeout=600)
         full = unhx(m[2].split()[1])
         mline, _, moob = m[1].partition(":")
         case = {"origin": "cli", "flag": flag, "expr_hex": hx(s), "ops": ["create " + hx(s)],
                 "desc": "pdsh %s -w <%d bytes>" % (flag, len(s)), "text_len": len(full)}
-        cls, line = cli.targets(flag, ["-w", s.decode("latin1")])
+        cls, line = cli.targets(flag, ["-w", s.decode("latin1")], timeout=120)
         dist["cli"] += 1
         dist["calls"] += 1
-        fill = ":exact-fill" if flag == "-Q" and exact_fill(recs, 1024) else ""
-        d1024 = len(full) - 1023
-        if -2 <= d1024 <= 2:
-            key = "pdsh %s, text = 1023%+d bytes" % (flag, d1024)
-            dist.setdefault("boundary", {})[key] = dist.setdefault("boundary", {}).get(key, 0) + 1
+        fill = ":exact-fill" if flag == "-Q" and cap is not None and len(full) < (1 << 20) and exact_fill(recs, cap) else ""
+        for base in set([1024] + ([cap] if cap is not None else [])):
+            dcap = len(full) - (base - 1)
+            if -2 <= dcap <= 2:
+                key = "pdsh %s, text = %s%+d bytes" % (flag, "1023" if base == 1024 else "capacity-1", dcap)
+                dist.setdefault("boundary", {})[key] = dist.setdefault("boundary", {}).get(key, 0) + 1
         if cli.asan and cls != "timeout":
             # the same call in the AddressSanitizer build: a store outside wcoll_str[1024] is reported there
-            acls, aline = cli.targets(flag, ["-w", s.decode("latin1")], asan=True)
+            acls, aline = cli.targets(flag, ["-w", s.decode("latin1")], asan=True, timeout=300)
             dist["cli-asan"] = dist.get("cli-asan", 0) + 1
             if acls.startswith("crash:asan"):
                 ctx.offender("cli-" + acls[6:] + fill, "pdsh %s -w with a target text of %d bytes, AddressSanitizer build: %s" %
@@ -496,18 +545,48 @@ def cli_check(ctx, pr, gen, dist, cov, only=None, builds=None):
         if mline != "no-nul" and line != unhx(mline) and not moob:
             ctx.disagreement("print model (opt_list) vs pdsh %s" % flag, "pdsh prints `..%s` model `..%s`" %
                              (line[-60:], unhx(mline)[-60:]), case)
-        # oracle: the whole text when it fits 1024 bytes, else a proper prefix marked [truncated]
-        if len(full) < 1024:
-            if line != full:
-                ctx.offender("cli-text-differs" + fill, "pdsh %s prints `..%s` for the %d-byte target text `..%s`" %
-                             (flag, line[-40:].decode("latin1"), len(full), full[-40:].decode("latin1")), case)
-        else:
-            ok = line.endswith(b"[truncated]") and len(line) - 11 < 1024 and full.startswith(line[:-11])
-            if not ok:
-                ctx.offender("cli-truncation-not-marked" + fill, "pdsh %s with a %d-byte target text prints `..%s`" %
-                             (flag, len(full), line[-50:].decode("latin1")), case)
+        # oracle (policy-free): the whole text, or a PROPER prefix of it marked [truncated] - how long a list a caller
+        # shows in full is its own business; a text that fitted a 1024-byte buffer must still be shown in full
+        marked = line.endswith(b"[truncated]") and len(line) - 11 < len(full) and full.startswith(line[:-11])
+        if line != full and not marked:
+            sig = "cli-truncation-not-marked" if len(full) >= 1024 and full.startswith(line.replace(b"[truncated]", b"")[:len(full)]) \
+                else "cli-text-differs"
+            ctx.offender(sig + fill, "pdsh %s prints `..%s` for the %d-byte target text `..%s`: neither the text nor a proper "
+                         "prefix of it marked [truncated]" % (flag, line[-50:].decode("latin1"), len(full),
+                                                              full[-40:].decode("latin1")), case)
+        elif marked and len(full) < 1024:
+            ctx.offender("cli-text-differs" + fill, "pdsh %s cuts the %d-byte target text `..%s` after %d characters" %
+                         (flag, len(full), full[-40:].decode("latin1"), len(line) - 11), case)
     if only is None:
         xlist_check(ctx, pr, cli, dist, cov)
+
+
+def big_boundary(ctx, cli, cap, d, dist):
+    """the boundary of a BIG display buffer (observed capacity `cap` > 64 KiB): `pdsh -Q` on numeric ranges whose expanded
+    text has cap - 1 + d bytes, normal and AddressSanitizer build: the whole text, or its first cap - 1 characters marked
+    [truncated] (the capacity observed by the probe must be the one that acts here)"""
+    from vlib.printcheck import numeric_list
+    expr, full = numeric_list(cap - 1 + d)
+    case = {"origin": "cli", "flag": "-Q", "expr_hex": hx(expr), "ops": ["create " + hx(expr)],
+            "desc": "pdsh -Q -w <numeric ranges, %d bytes expanded>" % len(full), "text_len": len(full)}
+    for asan in ((False, True) if cli.asan else (False,)):
+        cls, line = cli.targets("-Q", ["-w", expr.decode()], timeout=300, asan=asan)
+        dist["cli"] += 1
+        dist["calls"] += 1
+        key = "pdsh -Q, text = capacity-1%+d bytes" % d
+        dist.setdefault("boundary", {})[key] = dist.setdefault("boundary", {}).get(key, 0) + 1
+        if cls != "ok":
+            ctx.offender("cli-" + (cls[6:] if cls.startswith("crash:asan") else "crash"),
+                         "pdsh -Q -w with a target text of %d bytes%s: %s" % (len(full), ", AddressSanitizer build" if asan else "", cls),
+                         dict(case, pdsh=cls))
+            continue
+        marked = line.endswith(b"[truncated]") and len(line) - 11 < len(full) and full.startswith(line[:-11])
+        if line != full and not marked:
+            ctx.offender("cli-text-differs", "pdsh -Q prints `..%s` for the %d-byte target text: neither the text nor a proper "
+                         "prefix of it marked [truncated]" % (line[-50:].decode("latin1"), len(full)), case)
+        elif (line == full) != (len(full) < cap) or (marked and len(line) - 11 != cap - 1):
+            ctx.disagreement("observed display capacity vs pdsh -Q", "capacity %d was observed, a text of %d bytes is shown %s" %
+                             (cap, len(full), "in full" if line == full else "cut after %d characters" % (len(line) - 11)), case)
 
 
 def xlist_names(want):
